@@ -586,7 +586,7 @@ class PlanJoinTablesQuery:
             for param, value in query_in.using.items():
                 if '.' in param:
                     alias = param.split('.')[0]
-                    if (alias,) in item.aliases:
+                    if (alias.lower(),) in item.aliases:
                         new_param = '.'.join(param.split('.')[1:])
                         model_params[new_param.lower()] = value
                 else:
